@@ -83,6 +83,12 @@ func Hold(s *AbsState, base int64) []HoldEntry {
 			add(a, "OLT", "propFund", v)
 		}
 	}
+	// an open bid is held by the bid application for its bidder (the owner's counter offer holds nothing)
+	for _, r := range s.Bids {
+		if r.Offer == "bid" {
+			add(r.Bidder, "OLT", "escrow", r.Amt)
+		}
+	}
 	// merge duplicates (same owner/currency/category from several records) and sort
 	agg := map[HoldEntry]int64{}
 	for _, e := range out {
